@@ -58,24 +58,32 @@ def diag_check(H):
         cx.oblige("C15.diag.ctor_no_raise", kind == "return")
         if kind != "return":
             return
-        g, gf = sym_gradients(cx, it, T)
-        kind, out = call_catch(lambda: it.call(tr, [g]))
-        cx.oblige("C15.diag.no_raise", kind == "return", where=str(getattr(out, "where", None)) if kind == "raise" else None)
-        if kind != "return":
-            return
-        cx.oblige("C15.diag.type", out.cls.name == "Jacobians")
         off = A.offsets(it, T)
         R = off.total()
         # generic key j, row r, flat position e inside the key
         j, r, e = cx.fresh_int("j"), cx.fresh_int("r"), cx.fresh_int("e")
         cx.assume(z3.And(0 <= j, j < T.length, 0 <= r, r < R, 0 <= e, e < A.numel(T.get(j).ref)))
-        m = P.to_symmap(it, out.payload)
         x = T.get(j).ref
-        cx.oblige("C15.diag.keys", P.map_dom(it, m)(x))
-        v = m.get(x)
-        cx.oblige("C15.diag.shape", z3.And(len(v.shape.lead) == 1, lift(v.shape.lead[0]) == R, v.shape.tail == V.TRef(x).shape.tail))
-        # row r of key j holds, at position e, the gradient entry of scalar r if r is the scalar (j, e), else 0
-        cx.oblige("C15.diag.post", v.elem([r, e]) == z3.If(r == off.off(j) + e, gf(x, e), 0))
+        n_ev = len(cx.events)
+        # the SAME transform object is applied twice, to two different dictionaries: a transform is a function of its input (an
+        # iterator consumed by the first application, a cached result, ... would show in the second)
+        for tag, nm in (("", "g"), (".second_application", "h")):
+            g, gf = sym_gradients(cx, it, T, name=nm)
+            kind, out = call_catch(lambda: it.call(tr, [g]))
+            cx.oblige(f"C15.diag{tag}.no_raise", kind == "return", where=str(getattr(out, "where", None)) if kind == "raise" else None)
+            if kind != "return":
+                return
+            cx.oblige(f"C15.diag{tag}.type", out.cls.name == "Jacobians")
+            if isinstance(out.payload, dict) and not out.payload:
+                cx.oblige(f"C15.diag{tag}.keys", T.length == 0)
+                continue
+            m = P.to_symmap(it, out.payload)
+            cx.oblige(f"C15.diag{tag}.keys", P.map_dom(it, m)(x))
+            v = m.get(x)
+            cx.oblige(f"C15.diag{tag}.shape", z3.And(len(v.shape.lead) == 1, lift(v.shape.lead[0]) == R, v.shape.tail == V.TRef(x).shape.tail))
+            # row r of key j holds, at position e, the gradient entry of scalar r if r is the scalar (j, e), else 0
+            cx.oblige(f"C15.diag{tag}.post", v.elem([r, e]) == z3.If(r == off.off(j) + e, gf(x, e), 0))
+        cx.oblige("C15.diag.application_is_stateless", not [ev for ev in cx.events[n_ev:] if ev[0] == "setattr" and ev[1]["obj"] is tr])
     H.explore(body)
 
 
